@@ -1318,7 +1318,7 @@ func TestVerif_C12_Sched(t *testing.T) {
 		ops := st.takeLog()
 		refreshed := false
 		for _, o := range ops {
-			if strings.HasPrefix(o, "cookie:Set(session)") {
+			if strings.HasPrefix(o, "cookie:Set(session)") || strings.HasPrefix(o, "cookie:WriteCas(session)") {
 				refreshed = true
 			}
 		}
